@@ -169,6 +169,83 @@ def oracle_expr_attrs(rec):
     return bad, known, cnt
 
 
+SHAPE_OF_KIND = {'class': 'class', 'method': 'method', 'variable': 'var', 'call': 'call', 'new': 'new', 'binary': 'binary',
+                 'if': 'if', 'while': 'while', 'do': 'do', 'for': 'for', 'break': 'break', 'continue': 'continue',
+                 'yield': 'yield', 'assert': 'assert', 'return': 'return', 'block': 'block'}
+C05_KINDS = ('class', 'method', 'variable')
+
+
+def dec_attrs(d):
+    if d['attrs'] == '~':
+        return None
+    out = {}
+    for part in d['attrs'].split(';'):
+        k, _, v = part.partition(':')
+        out[k] = [bytes.fromhex(t[1:]).decode('utf-8', 'replace') for t in _hex.findall(v) if t != '~']
+    return out
+
+
+def oracle_spec_vs_truth(rec, kinds):
+    """the decoder SPECIFICATION (Scan/Decode.v, by field names) against generator ground truth, and how
+    often the shape hypotheses of the C05/C06 theorems hold on real trees. -> (mismatches, counts)"""
+    idx = {}
+    for d in rec.get('decoded', []):
+        idx.setdefault((d['shape'], int(d['line']), bytes.fromhex(d['snippet'][1:])), d)
+    bad, cnt = [], Counter()
+    one = lambda x: [x] if x not in (None,) else []
+    for t in rec['case'].get('truth', []):
+        k = t['kind']
+        if k not in kinds or k not in SHAPE_OF_KIND:
+            continue
+        cnt['truth_' + k] += 1
+        d = idx.get((SHAPE_OF_KIND[k], t['line'], t['text'].encode('utf-8')))
+        if d is None:
+            cnt['noshape_' + k] += 1
+            continue
+        a = dec_attrs(d)
+        if a is None:
+            cnt['sidecond_' + k] += 1
+            continue
+        cnt['shaped_' + k] += 1
+        doc = [t['doc']['text']] if t.get('doc') else []
+        if k == 'method':
+            exp = dict(name=[t['name']], ret=[t['ret']], vis=[t['vis']], ptypes=t['ptypes'], pnames=t['pnames'], throws=t['throws'], annots=t['annots'], doc=doc)
+        elif k == 'class':
+            exp = dict(name=[t['name']], vis=[t['vis']], super=[t['sup']], ifaces=t['ifaces'], annots=t['annots'], doc=doc)
+        elif k == 'variable':
+            exp = dict(name=[t['name']], dtype=[t['dtype']], scope=[t['scope']], vis=[t['vis']])
+            a = dict(a)
+            if nows(a.pop('value', [''])[0]) != nows(t['init'] or ''):
+                bad.append((k, t['line'], 'value', t['init'], a))
+        elif k == 'call':
+            exp = dict(name=[t['name']], args=t['args'])
+        elif k == 'new':
+            exp = {'class': [t['cls']], 'args': t['args']}
+            a = {kk: v for kk, v in a.items() if kk != 'argtypes'}
+        elif k == 'binary':
+            exp = dict(op=[t['op']], left=[t['left']], right=[t['right']], kinds=[t['opkind'], 'binary_expression'])
+        elif k == 'if':
+            exp = {'cond': [t['cond']], 'then': [t['then']], 'else': [t['els'] or '']}
+        elif k in ('while', 'do'):
+            exp = dict(cond=[t['cond']])
+        elif k == 'for':
+            exp = dict(init=one(t['init']), cond=one(t['cond']), update=one(t['update']))
+        elif k in ('break', 'continue'):
+            exp = dict(label=[t['label']])
+        elif k == 'yield':
+            exp = dict(value=[t['value']])
+        elif k == 'assert':
+            exp = dict(expr=[t['expr']], msg=one(t['msg']))
+        elif k == 'return':
+            exp = dict(value=one(t['result']))
+        else:
+            exp = dict(stmts=t['stmts'])
+            a = {'stmts': a.get('stmts')}
+        if {kk: a.get(kk) for kk in exp} != exp:
+            bad.append((k, t['line'], exp, {kk: a.get(kk) for kk in exp}))
+    return bad, cnt
+
+
 def replay_payload(pid, case, what, detail):
     return dict(property=pid, what=what, detail=detail, path=case['path'], origin=case['origin'],
                 data_b64=base64.b64encode(case['data']).decode(),
@@ -206,6 +283,12 @@ def run_oracles(pid, recs, res, cst):
                 res.known_hits.setdefault('D19', Counter()).update(known)
             if viol:
                 res.violations.append(replay_payload(pid, c, 'entity census differs from the parse tree', viol[:3]))
+        if pid in ('C05', 'C06') and c['origin'] == 'family':
+            kinds_ = C05_KINDS if pid == 'C05' else tuple(k for k in SHAPE_OF_KIND if k not in C05_KINDS)
+            sbad, scnt = oracle_spec_vs_truth(r, kinds_)
+            stats.update({'spec_' + k: v for k, v in scnt.items()})
+            if sbad and not any('decoder specification' in t for t in res.tie_broken):
+                res.tie_broken.append('the decoder specification (Scan/Decode.v) disagrees with generator ground truth: %s' % str(sbad[0])[:400])
         if pid == 'C05' and c['origin'] == 'family':
             bad, cnt = oracle_decl_attrs(r)
             stats.update({'decl_' + k: v for k, v in cnt.items()})
@@ -256,6 +339,12 @@ def check(pid, tier, seed, t0, st, replay):
                     # keep the disagreeing input for replay
                     c0 = ex['recs'][d0[0]]['case']
                     res.notes.append({'first_disagreeing_input': replay_payload(pid, c0, 'model/implementation disagreement', d0[2][:500])})
+                if pid in ('C05', 'C06'):
+                    tr = sum(v for k, v in stats.items() if k.startswith('spec_truth_'))
+                    sh = sum(v for k, v in stats.items() if k.startswith('spec_shaped_'))
+                    res.coverage['shape_hypothesis_satisfied'] = round(sh / tr, 4) if tr else 0
+                    if tr and sh / tr < 0.9:
+                        res.tie_broken.append('the shape hypotheses of the %s theorems hold on only %.0f%% of the family\'s occurrences' % (pid, 100.0 * sh / tr))
                 origins = Counter(c['origin'] for c in cases)
                 sizes = sorted(len(c['data']) for c in cases)
                 res.coverage.update(dict(
